@@ -2,7 +2,8 @@
    it (or loaded and requested it) to the bytes in the stream.  save() returns true and the stream holds the ELF
    header, every section header record and every section's data verbatim at their places. *)
 From ElfioV Require Import Bytes Mem Stream SectionData SectionData_proofs Strings Elfio Table Loader Layout Writer
-     Ostream_proofs Codec_proofs Layout_proofs Writer_proofs ByName_proofs Save_twice.
+     Ostream_proofs Codec_proofs Layout_proofs Writer_proofs ByName_proofs Save_twice
+     Segment_proofs Oneseg_proofs Oneseg_writer.
 From Coq Require Import ZifyBool ZifyN ZifyNat.
 Local Open Scope N_scope.
 
@@ -166,3 +167,99 @@ Section EndToEnd.
     - intros s b Hin Hd. destruct (W1 s Hin) as (_ & _ & D). now apply D.
   Qed.
 End EndToEnd.
+
+(* ---------- the same for objects with one segment of automatically addressed members ---------- *)
+Section EndToEndOneseg.
+  Variable junk : N -> N.
+
+  Lemma relaid_writable s s' : relaid s s' -> writable s -> writable s'.
+  Proof.
+    intros [->|[(o & ->)|(a & o & ->)]] W; [exact W| |]; destruct W as (Ho & Q & D); (split; [|split; [exact Q|exact D]]);
+      cbn [sh_offset s_cls with_offset with_addr]; unfold wrap; apply N.mod_lt; apply N.pow_nonzero; lia.
+  Qed.
+
+  Lemma exec_plan_app os p q : exec_plan (exec_plan os p) q = exec_plan os (p ++ q).
+  Proof. unfold exec_plan. now rewrite fold_left_app. Qed.
+
+  Theorem save_oneseg_end_to_end el h0 g bound ms :
+    let idxs := g_sections g in
+    let align := if 0 <? p_align g then p_align g else 1 in
+    let secs := el_secs el in
+    let pos0 := e_ehsize h0 + e_phentsize h0 in
+    el_hdr el = Some h0 -> el_segs el = [g] -> lenN secs < 2 ^ 16 ->
+    lenN idxs < 2 ^ 16 -> idxs <> [] -> g_offset_set g = false -> p_type g <> PT_PHDR -> NoDup idxs ->
+    Forall2 (fun i s => nth_optN secs i = Some s) idxs ms ->
+    Forall auto_member ms -> Forall (fun s => sh_addralign s <= p_align g) ms ->
+    bound <= 2 ^ 63 -> Forall (fun s => bound <= 2 ^ xw (s_cls s)) secs -> bound <= 2 ^ xw (g_cls g) ->
+    bound <= 2 ^ xw (e_cls h0) -> p_align g < 2 ^ 63 ->
+    p_vaddr g + pos0 + align + mbudget ms + budget secs + 16 + e_shentsize h0 * lenN secs < bound ->
+    indexed_from 0 secs ->
+    (forall s, In s secs -> s_index s = 0 -> csize s = 0) ->
+    lenN (e_ident h0) = 16 -> e_ehsize h0 = ehdr_size (e_cls h0) ->
+    (forall s, In s secs -> shdr_size (s_cls s) <= e_shentsize h0) ->
+    phdr_size (g_cls g) <= e_phentsize h0 -> g_index g = 0 ->
+    el_xlat el = [] -> el_compr el = false -> Forall writable secs -> g_loaded g = true ->
+    exists el' h' g',
+      layout el = Ok (el', true) /\ el_hdr el' = Some h' /\ el_segs el' = [g'] /\
+      let plan := oneseg_plan h' (el_secs el') (segments_plan (e_enc h') h' [g']) in
+      (plan_small 0 plan ->
+       exists os,
+         save junk el (new_ostream None) = Ok (el', os, true) /\
+         let file := os_bytes os in
+         sliceN file 0 (ehdr_size (e_cls h')) = ehdr_bytes h' /\
+         sliceN file (e_phoff h') (phdr_size (g_cls g')) = phdr_bytes (e_enc h') g' /\
+         (forall s, In s (el_secs el') ->
+            sliceN file (e_shoff h' + e_shentsize h' * s_index s) (shdr_size (s_cls s)) = shdr_bytes (e_enc h') s) /\
+         (forall s b, In s (el_secs el') -> csize s <> 0 -> s_data s = Some b ->
+            sliceN file (sh_offset s) (sh_size s) = firstnN b (sh_size s))).
+  Proof.
+    cbv zeta. intros Hh Hs Hnsec Hlen Hne Hos Hty Hnd HF Hauto Hdom Hb63 Hcls Hbg Hbh Hal Hbud Hidx Hnull Hident Heh Hes Hph Hgi Hx Hcm W Hgl.
+    assert (Hdata : forall s b, In s (el_secs el) -> s_data s = Some b -> sh_size s <= lenN b).
+    { intros s b Hin Hd. rewrite Forall_forall in W. destruct (W s Hin) as (_ & _ & D). now apply D. }
+    destruct (oneseg_saved_file el h0 g bound ms Hh Hs Hnsec Hlen Hne Hos Hty Hnd HF Hauto Hdom Hb63 Hcls Hbg Hbh Hal Hbud Hidx
+                Hnull Hdata Hident Heh Hes Hph Hgi)
+      as (el' & h' & g' & ss & pos1 & pos2 & L & Eh & Eg & RL & Hpo & Hpn & Hsn & Hso & _ & _ & _ & _ & _ & _ & _ & _ & _ & FILE).
+    exists el', h', g'. split; [exact L|]. split; [exact Eh|]. split; [exact Eg|]. intros Hsmall.
+    destruct (layout_keeps_env _ _ _ L) as (X1 & X2 & X3).
+    assert (Q0 : Forall quiet (el_secs el)).
+    { eapply Forall_impl; [|exact W]. intros s (_ & Q & _). exact Q. }
+    assert (W1 : Forall writable (el_secs el')).
+    { clear - RL W junk. induction RL as [|s s' t t' Hk HK IH]; [constructor|]. inversion W; subst.
+      constructor; [eapply relaid_writable; eauto|auto]. }
+    assert (Hso63 : e_shoff h' < 2 ^ 63).
+    { rewrite Hso. set (align := if 0 <? p_align g then p_align g else 1) in *.
+      destruct (layout_oneseg el h0 g bound ms Hh Hs Hnsec Hlen Hne Hos Hty Hnd HF Hauto Hdom ltac:(lia) Hcls Hbg Hal)
+        as (el2 & g2 & secs2 & ss2 & p1 & p2 & L2 & Eh2 & _ & _ & _ & _ & _ & _ & T2 & _ & _ & _ & _ & _ & _ & _ & _ & _ & _ & _ & B1 & B2).
+      { fold align. clearbody align. clear - Hbud. lia. }
+      rewrite L in L2. injection L2 as <-. rewrite Eh in Eh2. injection Eh2 as Eh2.
+      assert (E : e_shoff h' = wrap (xw (e_cls h0)) (p2 + (16 - p2 mod 16))) by (rewrite Eh2; destruct h0; reflexivity).
+      rewrite <- Hso, E. unfold wrap. eapply N.le_lt_trans; [apply N.mod_le; apply N.pow_nonzero; lia|].
+      fold align in T2. clearbody align. clear - T2 B1 B2 Hbud Hb63. lia. }
+    unfold save. change (os_bad (new_ostream None)) with false. cbn iota. rewrite Hh.
+    rewrite (force_sections_quiet junk _ _ _ [] Q0). cbn [bind rev_append].
+    rewrite Hs. cbn [force_segments]. unfold seg_get_data at 1. rewrite Hgl. cbn [bind rev_append].
+    rewrite <- Hs, with_parts_id, L. cbn [bind negb]. rewrite Eh.
+    rewrite X1, Hx, save_header_fresh. cbn [negb]. rewrite X2, Hcm.
+    rewrite (sections_plan_writable junk (e_enc h') h' [] (el_stream el') (el_secs el') [] [] Hso63 W1). cbn [bind rev_append app].
+    set (os1 := exec_write (new_ostream None) (0, ehdr_bytes h')).
+    set (plan_s := flat_map (sec_writes (e_enc h') (e_shoff h') (e_shentsize h')) (el_secs el')).
+    assert (E2 : exec_plan (exec_plan os1 plan_s) (segments_plan (e_enc h') h' (el_segs el')) =
+                 exec_plan (new_ostream None) (oneseg_plan h' (el_secs el') (segments_plan (e_enc h') h' [g']))).
+    { rewrite Eg, exec_plan_app. reflexivity. }
+    destruct new_ostream_ok as [Ok0 G0].
+    (* the intermediate stream (after the sections) is good as well: it is the execution of a prefix of the plan *)
+    assert (Hsmall1 : plan_small 0 ((0, ehdr_bytes h') :: plan_s)).
+    { clear - Hsmall. unfold oneseg_plan in Hsmall. fold plan_s in Hsmall.
+      revert Hsmall. generalize ((0, ehdr_bytes h') :: plan_s) as p. generalize 0 as len.
+      intros len p. revert len. induction p as [|w t IH]; intros len H; cbn [app plan_small] in *; [exact I|].
+      destruct H as [H1 H2]. split; [exact H1|]. now apply IH. }
+    destruct (exec_plan_flat ((0, ehdr_bytes h') :: plan_s) (new_ostream None) Ok0 G0 Hsmall1) as (_ & (G1 & G2 & _) & _). cbv zeta in *.
+    change (exec_plan (new_ostream None) ((0, ehdr_bytes h') :: plan_s)) with (exec_plan os1 plan_s) in G1, G2.
+    rewrite G2, G1.
+    destruct (exec_plan_flat _ (new_ostream None) Ok0 G0 Hsmall) as (_ & (G3 & G4 & _) & _). cbv zeta in *.
+    rewrite E2, G4, G3. cbn [negb].
+    eexists. split.
+    - f_equal. f_equal. f_equal. destruct el'; cbn in *. subst. reflexivity.
+    - exact (FILE Hsmall).
+  Qed.
+End EndToEndOneseg.
